@@ -193,6 +193,50 @@ func c07EndToEnd(c *vk.Ctx) {
 			}
 		}
 	}
+	// History size changed AFTER the service exists (0 -> N: the defence is switched on at run
+	// time; N -> 0 -> N): from then on "the most recent N" holds for the handshakes checked since.
+	for _, start := range []int{0, 50} {
+		rc := service.NewReplayCache(start)
+		rigR := StartTCPRig(keys, TCPRigOpts{Timeout: timeout, Replay: &rc, Raw: start != 0})
+		if start != 0 {
+			rc.Resize(0)
+		}
+		n := 20 + r.Intn(100)
+		rc.Resize(n)
+		k := keys[r.Intn(len(keys))]
+		caseN := nextID(c.Batch)
+		ip := caseIP4(caseN)
+		payload := putU64(caseN)
+		reply, stream, err := tcpExchange(rigR.Addr4(), randSrc4(r), k, randBytes(r, k.Codec().C.SaltSize), ip, hub.Port, payload, 15*time.Second)
+		if err != nil || !bytes.Equal(reply, payload) {
+			c.Violation("C07/e2e/fresh-handshake-refused", map[string]any{"phase": "after resizing the history of a running service", "err": fmt.Sprint(err)})
+			rigR.Close(5 * time.Second)
+			return
+		}
+		cl, err := DialSS(rigR.Addr4(), randSrc4(r), k, nil)
+		if err == nil {
+			cl.WriteRaw(stream)
+			cl.Conn.CloseWrite()
+			got, _ := cl.ReadAllPlain(time.Now().Add(15 * time.Second))
+			cl.Conn.Close()
+			rec, _ := rigR.WaitDone(cl.Local, 10*time.Second)
+			tmu.Lock()
+			seen := targetSeen[ip.String()]
+			tmu.Unlock()
+			st := ""
+			if rec != nil {
+				st = rec.Snap().Status()
+			}
+			c.Eval(fmt.Sprintf("e2e|history-resized-on-a-running-service|from=%d", start))
+			if len(got) != 0 || seen != 1 || st != "ERR_REPLAY_CLIENT" {
+				c.Violation("C07/e2e/sequential-replay-accepted", map[string]any{"history_when_the_service_was_created": start, "history_now": n, "reply_len": len(got), "target_connections": seen, "status": st})
+				rigR.Close(5 * time.Second)
+				return
+			}
+			c.Count("e2e_replays_refused_after_runtime_resize", 1)
+		}
+		rigR.Close(5 * time.Second)
+	}
 	if u := hub.UnexpectedList(); len(u) > 0 {
 		c.Violation("C07/e2e/unexpected-target-connection", u)
 	}
